@@ -52,7 +52,11 @@ def loopback_concurrency(rng, n_clients, tier):
     from pynetdicom2 import applicationentity as aemod, sopclass, statuses, dimsemessages as dm
     from pydicom.dataset import Dataset
     stores = {}
+    served = {}
     lock = threading.Lock()
+    IMPLICIT, EXPLICIT = '1.2.840.10008.1.2', '1.2.840.10008.1.2.1'
+    opened = threading.Barrier(n_clients)
+    querying = threading.Barrier(n_clients - len([i for i in range(n_clients) if i % 5 == 4]))
 
     class Server(aemod.AE):
         def on_receive_store(self, context, ds):
@@ -60,25 +64,34 @@ def loopback_concurrency(rng, n_clients, tier):
             d = pydicom.dcmread(ds)
             with lock:
                 stores.setdefault(str(d.PatientID), []).append(str(d.SOPInstanceUID))
+                # the negotiated parameters this request was served with: (context id, class, transfer syntax)
+                served.setdefault(str(d.PatientID), []).append(
+                    (int(context.id), str(context.sop_class), str(context.supported_ts),
+                     str(d.file_meta.TransferSyntaxUID)))
             return statuses.SUCCESS
 
         def on_receive_find(self, context, ds):
             pid = str(ds.PatientID)
-            n = int(pid.split('-')[-1]) % 4
-            out = []
-            for j in range(n):
-                r = Dataset()
-                r.PatientID = pid
-                r.PatientName = 'Match^%s^%d' % (pid, j)
-                out.append((r, statuses.C_FIND_PENDING))
-            return iter(out)
+            n = 2 + int(pid.split('-')[-1]) % 3
+
+            def matches():
+                for j in range(n):
+                    r = Dataset()
+                    r.PatientID = pid
+                    r.PatientName = 'Match^%s^%d' % (pid, j)
+                    time.sleep(0.005)                  # lets the other associations' queries interleave
+                    yield r, statuses.C_FIND_PENDING
+            return matches()
     CT = '1.2.840.10008.5.1.4.1.1.2'
-    srv = Server('SERVER', 0, max_pdu_length=rng.choice([1024, 16384])).add_scp(sopclass.verification_scp) \
+    from pydicom import uid as pyuid0
+    srv = Server('SERVER', 0, supported_ts=[pyuid0.UID(IMPLICIT), pyuid0.UID(EXPLICIT)],
+                 max_pdu_length=rng.choice([1024, 16384])).add_scp(sopclass.verification_scp) \
         .add_scp(sopclass.qr_find_scp)
     srv.add_scp(type('S', (), dict(sop_classes=[CT], store_in_file=True,
                                   __call__=lambda self, *a: sopclass.storage_scp(*a)))())
     srv.handle_error = lambda *a: None
     results = [None] * n_clients
+    negotiated = [None] * n_clients
 
     def client(i, port):
         pid = 'P-%d-%d' % (i, i)
@@ -87,10 +100,24 @@ def loopback_concurrency(rng, n_clients, tier):
         aborted = (i % 5 == 4)
         err = None
         try:
-            cli = aemod.ClientAE('C%d' % i, max_pdu_length=[0, 256, 4096, 65536][i % 4]) \
-                .add_scu(sopclass.verification_scu).add_scu(sopclass.qr_find_scu).add_scu(sopclass.storage_scu, [CT])
+            # every client negotiates something else: the order of its classes (so that one context id means a
+            # different class on each association) and its transfer syntaxes
+            from pydicom import uid as pyuid
+            adders = [lambda c: c.add_scu(sopclass.verification_scu), lambda c: c.add_scu(sopclass.qr_find_scu),
+                      lambda c: c.add_scu(sopclass.storage_scu, [CT])]
+            adders = adders[i % 3:] + adders[:i % 3]
+            my_ts = [[IMPLICIT], [EXPLICIT, IMPLICIT], [EXPLICIT]][i % 3 if i % 2 else (i // 2) % 3]
+            cli = aemod.ClientAE('C%d' % i, supported_ts=[pyuid.UID(t) for t in my_ts],
+                                 max_pdu_length=[0, 256, 4096, 65536][i % 4])
+            for add in adders:
+                add(cli)
             cli.timeout = 20
             with cli.request_association(loopback.remote(port)) as assoc:
+                negotiated[i] = dict((str(c), (int(v[0]), str(v[1]))) for c, v in assoc.sop_classes_as_scu.items())
+                try:
+                    opened.wait(30)                      # all associations are open before the first request
+                except threading.BrokenBarrierError:
+                    pass
                 st = assoc.get_scu(sopclass.VERIFICATION_SOP_CLASS)(i + 1)
                 expected.append('echo:0')
                 got.append('echo:%d' % int(st))
@@ -108,10 +135,27 @@ def loopback_concurrency(rng, n_clients, tier):
                 q = Dataset()
                 q.PatientID = pid
                 q.PatientName = ''
-                for rds, status in assoc.get_scu(sopclass.PATIENT_ROOT_FIND_SOP_CLASS)(q, 99):
+                try:
+                    querying.wait(30)                    # the queries of all associations run at the same time
+                except threading.BrokenBarrierError:
+                    pass
+                # observation only: the message id every response received on THIS association answers
+                answered_ids = []
+                plain_receive = assoc.receive
+
+                def recording_receive():
+                    m, pc = plain_receive()
+                    answered_ids.append(getattr(m, 'message_id_being_responded_to', None))
+                    return m, pc
+                assoc.receive = recording_receive
+                my_id = 1000 + i
+                for rds, status in assoc.get_scu(sopclass.PATIENT_ROOT_FIND_SOP_CLASS)(q, my_id):
                     got.append('find:%s:%s' % (str(rds.PatientName) if rds is not None else None, hex(int(status))))
-                n = int(pid.split('-')[-1]) % 4
+                assoc.receive = plain_receive
+                n = 2 + int(pid.split('-')[-1]) % 3
                 expected += ['find:Match^%s^%d:0xff00' % (pid, j) for j in range(n)] + ['find:None:0x0']
+                if any(x != my_id for x in answered_ids):
+                    got.append('responses-answer-foreign-message-ids:%r' % (answered_ids,))
         except RuntimeError:
             pass
         except Exception as e:  # noqa
@@ -135,6 +179,13 @@ def loopback_concurrency(rng, n_clients, tier):
             want = want[:1]
         r['server_stored'] = sorted(stores.get(pid, []))
         r['server_expected'] = sorted(want)
+        # negotiated parameters: every store of this client was served on the context this client negotiated for
+        # the class, with the transfer syntax the acceptor chose for it, and the file says the same
+        neg = (negotiated[i] or {}).get(CT)
+        r['negotiated'] = negotiated[i]
+        r['served_with'] = served.get(pid, [])
+        if neg is not None and any(x != (neg[0], CT, neg[1], neg[1]) for x in r['served_with']):
+            r['got'] = r['got'] + ['served-with-foreign-parameters']
     return results
 
 
